@@ -638,3 +638,33 @@ impl FramedSpace {
         apply_framing(&self.shapes[s], &mut idx)
     }
 }
+
+
+/// Number of chain kinds understood by [`chain`].
+pub const CHAIN_KINDS: usize = 9;
+
+/// A nesting chain of `n` levels built directly as bytes (no recursion anywhere, so depths of 10^5 are fine):
+/// returns the encoding, its diagnostic notation and whether an indefinite array/map sits inside a definite one.
+/// kind 0: tags `6(6(..0..))`; 1: one-element arrays `[[..0..]]`; 2: indefinite arrays `[_ [_ ..0..]]`;
+/// 3: arrays nested in first position `[[..0.., 1], 1]`; 4: maps nested in key position `{{..0..: 1}: 1}`;
+/// 5: maps nested in value position `{0: {0: ..1..}}`; 6: tag + indefinite array `1([_ 1([_ ..0..])])`;
+/// 7: indefinite maps in value position `{_ 0: {_ 0: ..1..}}`; 8: alternating indefinite / definite arrays `[_ [[_ [..0..]]]]`.
+pub fn chain(kind: usize, n: usize) -> (Vec<u8>, String, bool) {
+    let (open, core, close, ropen, rcore, rclose, indef_in_def): (&[u8], &[u8], &[u8], &str, &str, &str, bool) = match kind % CHAIN_KINDS {
+        0 => (&[0xc6], &[0x00], &[], "6(", "0", ")", false),
+        1 => (&[0x81], &[0x00], &[], "[", "0", "]", false),
+        2 => (&[0x9f], &[0x00], &[0xff], "[_ ", "0", "]", false),
+        3 => (&[0x82], &[0x00], &[0x01], "[", "0", ", 1]", false),
+        4 => (&[0xa1], &[0x00], &[0x01], "{", "0", ": 1}", false),
+        5 => (&[0xa1, 0x00], &[0x01], &[], "{0: ", "1", "}", false),
+        6 => (&[0xc1, 0x9f], &[0x00], &[0xff], "1([_ ", "0", "])", false),
+        7 => (&[0xbf, 0x00], &[0x01], &[0xff], "{_ 0: ", "1", "}", false),
+        _ => (&[0x9f, 0x81], &[0x00], &[0xff], "[_ [", "0", "]]", n >= 2),
+    };
+    let mut b = Vec::with_capacity(n * (open.len() + close.len()) + core.len());
+    let mut r = String::with_capacity(n * (ropen.len() + rclose.len()) + rcore.len());
+    for _ in 0 .. n { b.extend_from_slice(open); r.push_str(ropen) }
+    b.extend_from_slice(core); r.push_str(rcore);
+    for _ in 0 .. n { b.extend_from_slice(close); r.push_str(rclose) }
+    (b, r, indef_in_def)
+}
